@@ -82,6 +82,7 @@ func replayE1(prop, sig string, raw json.RawMessage) int {
 		Hist    []Op   `json:"history_ops"`
 		Op      Op     `json:"op_spec"`
 		Probe   bool   `json:"probe"`
+		Phase   string `json:"phase"`
 	}
 	if err := json.Unmarshal(raw, &c); err != nil {
 		return fail(err)
@@ -97,6 +98,30 @@ func replayE1(prop, sig string, raw json.RawMessage) int {
 		hook(e)
 	} else if err := configureE1(prop, e); err != nil {
 		return fail(err)
+	}
+	if c.Phase != "" {
+		// the step belongs to an extra phase of the check: its checker, target and world options
+		found := false
+		if cfg := e1Configs[prop]; cfg != nil {
+			for _, x := range cfg.extra {
+				if x.name != c.Phase {
+					continue
+				}
+				found = true
+				e.Phase = x.name
+				e.Checker = x.checker
+				e.Opts.MakeTarget = x.makeTarget
+				if x.opts != nil {
+					x.opts(&e.Opts)
+				}
+				if x.initials != nil {
+					e.Initials = append(e.Initials, x.initials()...)
+				}
+			}
+		}
+		if !found {
+			return fail(fmt.Errorf("unknown phase %q of %s", c.Phase, prop))
+		}
 	}
 	inits := append([]*Initial{}, e.Initials...)
 	if cfg := e1Configs[prop]; cfg != nil && cfg.deep != nil && cfg.deep.initials != nil {
